@@ -154,7 +154,7 @@ def run(tier):
         for k in tot:
             tot[k] += sm.get(k, 0)
         ngroups += res["ngroups"]
-        if sm["overflow"]:
+        if sm.get("overflow") or sm.get("aborted"):
             ck.exhaustive = False
         for v in res["viols"]:
             if v.get("what") == "yylineno: newlines of rejected text stay counted":
